@@ -127,7 +127,9 @@ MUTANTS: List[Tuple[str, List[str], List[Tuple[str, str, str]], str]] = [
     ("post-execute-before-close", ["C12"], [(R, "        # Stop the timer.\n        execution_time = time() - start_time\n        if dep_ctx:", "        # Stop the timer.\n        execution_time = time() - start_time\n        if found_exception is not None:\n            for middleware in self.broker.middlewares:\n                if middleware.__class__.on_error != TaskiqMiddleware.on_error:\n                    pass\n        if dep_ctx and found_exception is not None and not self.propagate_exceptions:\n            dep_ctx_late, dep_ctx = dep_ctx, None\n        else:\n            dep_ctx_late = None\n        if dep_ctx:"),
                                             (R, "        # If exception is found we execute middlewares.\n", "        if dep_ctx_late:\n            asyncio.get_running_loop().call_soon(lambda: asyncio.ensure_future(dep_ctx_late.close(None, None, None)))\n        # If exception is found we execute middlewares.\n")],
      "teardown deferred (after result handling) when the task failed and propagation is off"),
-    ("propagate-always", ["C12"], [(R, "            if found_exception and self.propagate_exceptions:", "            if found_exception:")],
+    ("revert-F14", ["C12"], [(R, "            if found_exception is not None and self.propagate_exceptions:", "            if found_exception and self.propagate_exceptions:")],
+     "reverts fix da08e2e: falsy task exceptions are not thrown into dependencies"),
+    ("propagate-always", ["C12"], [(R, "            if found_exception is not None and self.propagate_exceptions:", "            if found_exception is not None:")],
      "exception thrown into dependencies regardless of propagate_exceptions"),
     ("skip-close-on-noresult", ["C12"], [(R, "            await dep_ctx.close(*args)", "            if not isinstance(found_exception, NoResultError):\n                await dep_ctx.close(*args)")],
      "dependencies never torn down for a no-result outcome"),
